@@ -76,7 +76,7 @@ class MessageHandler(Virtual):
     def getentry(self, message=None):
         """Set the message if called from, eg, the dir handler.  Saves
         having to rescan the file.  If not set, will figure it out."""
-        if not message:
+        if message is None:
             message = self.getmessage()
 
         if not self.entry:
